@@ -104,6 +104,7 @@ let () =
       | ["commit"] -> step OpCommit
       | ["abort"] -> step OpAbort
       | ["reopen"] -> emit "ok" "ok" "-"
+      | ["integrity"] -> emit "Ok(true)" "Ok(true)" "-"
       | ["rep"; k] -> let k = kv_of_string k in emit "-" "-" (rep_s (rep_of kv_cmp k !model.m_cur))
       | ["rdump"] ->
         (* contents and len of the COMMITTED state, as a read transaction sees them *)
